@@ -177,6 +177,7 @@ type hs struct {
 	cases  []string
 	caseID int
 	steps  []string // Coq steps of the current scenario
+	viewN  int
 	marker string   // marker prefix of the next appended message (user of the acting connection)
 	log    []string // wire log of the current scenario (for failure reports)
 }
@@ -348,7 +349,8 @@ func unmark(s string) string {
 }
 
 func (x *hs) view(u user) (string, error) {
-	c, err := x.s.Login(u.names[0], u.pass)
+	x.viewN++
+	c, err := x.s.Login(u.names[x.viewN%len(u.names)], u.pass) // all accepted names of the user, in turn
 	if err != nil {
 		return "", err
 	}
@@ -625,13 +627,25 @@ func runC18(ctx *common.Ctx) error {
 		return err
 	}
 	x.s = s
-	defer s.Stop()
+	defer stopBounded(s)
 
 	// ---- initial mailboxes: same names for everybody, different contents ----
 	for _, u := range users {
 		c, err := s.Login(u.names[0], u.pass)
 		if err != nil {
 			return err
+		}
+		// a new user owns nothing but INBOX: anything else visible here belongs to somebody else
+		if r, err := c.Cmd(`LIST "" "*"`); err == nil {
+			for _, l := range r.Untagged {
+				if strings.Contains(l.Text, "only-") || strings.Contains(l.Text, `"shared"`) {
+					res.Evaluations++
+					res.Fail("isolation new-user-sees-foreign-mailbox",
+						fmt.Sprintf("LOGIN %s on a fresh server: LIST shows %q, a mailbox created by another user", u.names[0], l.Text),
+						map[string]string{"user": u.names[0], "line": l.Text})
+					return common.WriteCases(ctx.Out, "Run.RunC18", "case", nil, "")
+				}
+			}
 		}
 		boxes := []string{"shared", "Archive", "only-" + u.tag}
 		for i := 0; i < poolSize; i++ {
@@ -836,6 +850,20 @@ func runC18(ctx *common.Ctx) error {
 	return common.WriteCases(ctx.Out, "Run.RunC18", "case", x.cases, "")
 }
 
+// stopBounded closes the server but does not wait for ever: a defect of the implementation (e.g. a state that is never
+// released) must not keep the harness from writing its result.
+func stopBounded(s *srv.Server) {
+	done := make(chan struct{})
+	go func() {
+		_ = s.Stop()
+		close(done)
+	}()
+	select {
+	case <-done:
+	case <-time.After(20 * time.Second):
+	}
+}
+
 func (x *hs) jail(thorough bool) error {
 	res := x.ctx.Res
 	jailTime := 300 * time.Millisecond
@@ -848,7 +876,7 @@ func (x *hs) jail(thorough bool) error {
 	if err != nil {
 		return err
 	}
-	defer s.Stop()
+	defer stopBounded(s)
 	old := x.s
 	x.s = s
 	defer func() { x.s = old }()
